@@ -49,6 +49,9 @@ CAPSETS = {
     "tls-differs": dict(starttls=True, pre=b"LOGIN", post=b"PLAIN"),
     "tls-only-after": dict(starttls=True, pre=b"", post=b"PLAIN"),
     "tls-none-after": dict(starttls=True, pre=b"PLAIN", post=b"X-OTHER"),
+    # announced names that merely contain an implemented mechanism's name: nothing qualifies, no credentials may be sent
+    "lookalikes": dict(starttls=False, pre=b"X-PLAIN-SUBMIT NMAS_LOGIN OAUTHBEARER-V2", post=b"X-PLAIN-SUBMIT NMAS_LOGIN OAUTHBEARER-V2"),
+    "tls-lookalikes-after": dict(starttls=True, pre=b"PLAIN", post=b"PLAIN-CLIENTTOKEN XDIGEST-MD5"),
     "digest": dict(starttls=False, pre=b"DIGEST-MD5", post=b"DIGEST-MD5"),
     "tls-digest-after": dict(starttls=True, pre=b"PLAIN", post=b"DIGEST-MD5 PLAIN"),
 }
